@@ -330,6 +330,27 @@ def main(argv=None):
         return replay_main(module, prop, args.replay)
 
     t0 = time.time()
+    # replay tier: saved (shrunk) cases of earlier findings are re-executed first, without Hypothesis (seconds)
+    replay_violations = []
+    replayed = 0
+    replay_dir = os.path.join(VERIF, 'replays', prop)
+    if os.path.isdir(replay_dir):
+        for name in sorted(os.listdir(replay_dir)):
+            if not name.endswith('.json'):
+                continue
+            with open(os.path.join(replay_dir, name), encoding='utf8') as fhandle:
+                data = json.load(fhandle)
+            try:
+                module.replay(data.get('case', data))
+                replayed += 1
+            except Violation as exc:
+                replayed += 1
+                replay_violations.append({'property': exc.prop, 'sig': exc.sig, 'msg': f'[saved case replays/{prop}/{name}] ' + exc.msg,
+                                          'case': data.get('case', data), 'log': getattr(exc, 'log', None)})
+            except Exception:  # pylint: disable=broad-except
+                traceback.print_exc()
+                print(f'HARNESS-ERROR while replaying {name}', file=sys.stderr)
+                return 2
     nshards = min(args.shards, getattr(module, 'MAX_SHARDS', args.shards))
     tmpdir = tempfile.mkdtemp(prefix='verif-run-')
     procs = []
@@ -372,7 +393,7 @@ def main(argv=None):
     samples = []
     fallback_samples = []
     hist = {}
-    violations = []
+    violations = list(replay_violations)
     excluded = {}
     evaluations = 0
     skipped = 0
@@ -415,6 +436,7 @@ def main(argv=None):
         'samples': samples,
         'class_histogram': dict(sorted(hist.items())),
         'shards': nshards,
+        'saved_cases_replayed': replayed,
         'skipped_out_of_budget': skipped,
         'excluded_known': excluded,
     }
